@@ -98,6 +98,16 @@ def parse_cct(s, pos=0):
         for it in contents if tc in (M.B_POINT_TYPE, M.B_RECT_TYPE) else []:
             if any(math.isnan(x) for x in it):
                 raise Skip("nan-in-point/rect")
+        # an edit history instead of a one-shot build (chosen from the field's position in the text): re-put over a field of
+        # another type, remove-and-put-again, a decoy neighbour put before and removed after
+        hist = (pos + len(name)) % 4
+        if hist == 1:
+            msg.PutInt32(name, [1, 2, 3])
+        elif hist == 2:
+            msg.PutString(name + "~tmp", ["decoy"])
+        elif hist == 3:
+            msg.PutString(name, ["x"])
+            msg.RemoveName(name)
         if tc == M.B_MESSAGE_TYPE:
             msg.PutMessage(name, contents)
         elif tc == M.B_STRING_TYPE:
@@ -112,6 +122,8 @@ def parse_cct(s, pos=0):
             msg.PutRect(name, contents)
         else:
             msg.PutFieldContents(name, tc, contents)
+        if hist == 2:
+            msg.RemoveName(name + "~tmp")
     assert s[pos] == ")"
     return msg, pos + 1
 
